@@ -68,14 +68,15 @@ Section Vocabulary.
   Definition reshape (r c : nat) (v : vec T) : mat T :=
     tabulate r (fun i => slice (i * c) (i * c + c) v).
   Definition flatten (m : mat T) : vec T := concat m.
-  (* np.transpose(m, (0, 2, 1)) for an (r x c) item *)
-  Definition transpose (c : nat) (m : mat T) : mat T := tabulate c (fun k => col k m).
+  (* np.transpose(m, (0, 2, 1)) ; the column count is that of the first row *)
+  Definition ncols (m : mat T) : nat := length (hd [] m).
+  Definition transpose (m : mat T) : mat T := tabulate (ncols m) (fun k => col k m).
   (* np.stack([v0, v1, ...], axis=1) : rows ; axis=2 : columns *)
   Definition stack_rows (vs : list (vec T)) : mat T := vs.
-  Definition stack_cols (n : nat) (vs : list (vec T)) : mat T := transpose n vs.
+  Definition stack_cols (vs : list (vec T)) : mat T := transpose vs.
   (* A @ B for (r x n) (n x c) *)
-  Definition mmul (c : nat) (a b : mat T) : mat T :=
-    map (fun ra => tabulate c (fun k => dot ra (col k b))) a.
+  Definition mmul (a b : mat T) : mat T :=
+    map (fun ra => tabulate (ncols b) (fun k => dot ra (col k b))) a.
   Definition diag (v : vec T) : mat T :=
     tabulate (length v) (fun i => tabulate (length v) (fun j =>
       if Nat.eqb i j then vget v i else zero O)).
@@ -115,3 +116,80 @@ Definition vec_eq (a b : vec Q) : bool := all2 Qeq_bool a b.
 Definition vec_close (tol : Q) (a b : vec Q) : bool := all2 (q_close tol) a b.
 Definition mat_eq (a b : mat Q) : bool := all2 vec_eq a b.
 Definition mat_close (tol : Q) (a b : mat Q) : bool := all2 (vec_close tol) a b.
+
+(* ---- sparse matrices (align_nnz; hand model, tie = correspondence) ----
+   A scipy CSR matrix in canonical form (sorted indices, no duplicates) is the
+   list of its STORED entries (flat key = row * ncols + col, value) in storage
+   order = ascending key; stored zeros are entries like any other. *)
+Definition smatrix (T : Type) := list (Z * T).
+Definition skeys {T} (A : smatrix T) : list Z := map fst A.
+Definition svals {T} (A : smatrix T) : list T := map snd A.
+Fixpoint sget {T} (O : Ops T) (A : smatrix T) (k : Z) : T :=
+  match A with
+  | [] => zero O
+  | (k', v) :: r => if Z.eqb k k' then v else sget O r k
+  end.
+Fixpoint ascending (l : list Z) : bool :=
+  match l with
+  | x :: ((y :: _) as r) => Z.ltb x y && ascending r
+  | _ => true
+  end.
+(* well formed: keys strictly ascending and inside the (flattened) shape *)
+Definition swfb {T} (size : Z) (A : smatrix T) : bool :=
+  ascending (skeys A) && forallb (fun k => Z.leb 0 k && Z.ltb k size) (skeys A).
+
+(* sorted union of two ascending key lists *)
+Fixpoint kunion (a : list Z) : list Z -> list Z :=
+  fix inner (b : list Z) : list Z :=
+    match a, b with
+    | [], _ => b
+    | _, [] => a
+    | x :: a', y :: b' =>
+        match Z.compare x y with
+        | Lt => x :: kunion a' b
+        | Eq => x :: kunion a' b'
+        | Gt => y :: inner b'
+        end
+    end.
+
+Section Sparse.
+  Context {T : Type} (O : Ops T).
+  Definition nz (kv : Z * T) : bool := negb (eqb O (snd kv) (zero O)).
+  (* scipy csr + csr (csr_binop_csr_canonical with plus): union of the two
+     patterns, values added, and every entry whose RESULT is zero dropped *)
+  Definition sadd (A B : smatrix T) : smatrix T :=
+    filter nz (map (fun k => (k, add O (sget O A k) (sget O B k))) (kunion (skeys A) (skeys B))).
+  (* csr_matrix((ones(len(s.data)) * D, s.indices, s.indptr)) *)
+  Definition spattern (D : T) (A : smatrix T) : smatrix T := map (fun kv => (fst kv, D)) A.
+  Definition tmin (x y : T) : T := if leb O x y then x else y.
+  Definition tabs (x : T) : T := if leb O (zero O) x then x else opp O x.
+  (* np.min(s): over the stored values and, unless every position is stored, 0 *)
+  Definition smin (size : Z) (A : smatrix T) : T :=
+    let vs := if Z.ltb (Z.of_nat (length A)) size then zero O :: svals A else svals A in
+    match vs with [] => zero O | x :: r => fold_left tmin r x end.
+  Definition gmin (size : Z) (Ms : list (smatrix T)) : T :=
+    match map (smin size) Ms with [] => zero O | x :: r => fold_left tmin r x end.
+  (* dummy_scale = |min| * 2 + 1 *)
+  Definition dummy_scale (size : Z) (Ms : list (smatrix T)) : T :=
+    add O (mul O (tabs (gmin size Ms)) (of_Z O 2)) (of_Z O 1).
+  Definition dummy_csr (D : T) (Ms : list (smatrix T)) : smatrix T :=
+    fold_left (fun acc A => sadd acc (spattern D A)) Ms [].
+  (* a_s.data - dummy_array is positional: both must have the same length *)
+  Definition reduce (added dummy : smatrix T) : option (smatrix T) :=
+    if Nat.eqb (length added) (length dummy)
+    then Some (combine (skeys dummy) (map2 (sub O) (svals added) (svals dummy)))
+    else None.
+  Fixpoint all_some {A} (l : list (option A)) : option (list A) :=
+    match l with
+    | [] => Some []
+    | None :: _ => None
+    | Some x :: r => match all_some r with Some r' => Some (x :: r') | None => None end
+    end.
+  Definition align_nnz (size : Z) (Ms : list (smatrix T)) : option (list (smatrix T)) :=
+    let D := dummy_scale size Ms in
+    let dummy := dummy_csr D Ms in
+    all_some (map (fun A => reduce (sadd A dummy) dummy) Ms).
+End Sparse.
+
+Definition smat_eq (A B : smatrix Q) : bool :=
+  all2 (fun x y => Z.eqb (fst x) (fst y) && Qeq_bool (snd x) (snd y)) A B.
